@@ -64,6 +64,7 @@ func init() {
 		Units: []Unit{evalUnit([]string{"evaluator/common.go", "evaluator/c04.go"},
 			Harness{Fn: "ZZC04Assign", Quick: p("D", 1), Thorough: p("D", 2), Expect: []string{"accepted", "rejected", "witness:end"}},
 			Harness{Fn: "ZZC04Infer", Expect: []string{"infer-ok", "witness:end"}},
+			Harness{Fn: "ZZC04InferGen", Quick: p("K", 2), Thorough: p("K", 3), ThoroughBudget: 25 * time.Minute, Expect: []string{"infergen-ok", "infergen-oracle", "infergen-assign", "witness:end"}},
 			Harness{Fn: "ZZC04Ops", Expect: []string{"ops-accepted", "witness:end"}},
 		)},
 		Assumptions: []string{
